@@ -113,5 +113,8 @@ def run(tier, seed):
             o.replay = _replay_for(o.functions[0])
     res.add(table_obligations())
     res.add(V.structural_obligations())
+    # producer side of "one line per node": no parse method ever stores a node in an attr_names field
+    from props import gxcommon as GXC
+    res.add(GXC.gx(None, ["attrs"], "C14/gx", tier))
     res.assumptions.append("sequence-valued fields ('**' in the specification) hold None or a list (precondition of the constructors)")
     return res
